@@ -1,4 +1,5 @@
 import NbioVerif.Properties.C03
+import NbioVerif.Lemmas.SrcBridgeConn
 #print axioms Life.li_run
 #print axioms Life.li_runAll
 #print axioms Life.runAll_run
@@ -15,3 +16,4 @@ import NbioVerif.Properties.C03
 #print axioms Life.kres_stable
 #print axioms Life.c03_dial
 #print axioms Life.c03_dial_timer
+#print axioms ConnFull.src_masks_wellformed
